@@ -116,7 +116,7 @@ def oracle(parts, outcome, obs):
 
 
 CLAIM = {
-    "text": "Theorems C14_* (Coq, closed): for every option record the header and the separator have the same display width; for every row whose values fit their columns the rendered line has exactly that width, under all 32 -i flag sets; the rendered row is the concatenation of 33 cells that correspond one-to-one and in order to the header columns (same group, width = column width + separator), so every cell starts exactly under its column; each cell is all blanks under a stated "unknown" condition and a row with nothing known is the address followed by blanks at full width; header and rows consist of the base columns plus exactly the groups whose letter (A, s, a, w, e) is given; all lines of a printed frame have identical width. The column list is regenerated from header.rs on every run; the row renderer is a hand model of simple_display.rs tied to the code by comparing every line of every frame printed by the built CLI with the model"s rendering, on states that fill every column and leave each blank, with extreme fitting and negative values, for all 32 flag sets.",
+    "text": "Theorems C14_* (Coq, closed): for every option record the header and the separator have the same display width; for every row whose values fit their columns the rendered line has exactly that width, under all 32 -i flag sets; the rendered row is the concatenation of 33 cells that correspond one-to-one and in order to the header columns (same group, width = column width + separator), so every cell starts exactly under its column; each cell is all blanks under a stated unknown-value condition and a row with nothing known is the address followed by blanks at full width; header and rows consist of the base columns plus exactly the groups whose letter (A, s, a, w, e) is given; all lines of a printed frame have identical width. The column list is regenerated from header.rs on every run; the row renderer is a hand model of simple_display.rs tied to the code by comparing every line of every frame printed by the built CLI with the model rendering, on states that fill every column and leave each blank, with extreme fitting and negative values, for all 32 flag sets.",
     "note": "That each cell shows the field its header names is by construction of the cell list (which is what the theorem speaks about) plus the character-for-character correspondence with CLI output; character display width is taken as 1.",
     "technique": "Coq proof on the rendering model (cell-width lemmas, 32 flag sets) over the regenerated header table; CLI differential rendering + layout oracle",
 }
